@@ -16,6 +16,11 @@
     * `FlatStepT`, `StepTT`, `RealTT`, `TokHypTT`, `LoopTT` — the contracts of
       Lemmas/InlineNoPanic.lean / InlineTotalFrame.lean / InlineTotalStep.lean / InlineTotalLoop.lean
       over `GoodT`.
+
+  STATUS: the route these contracts were written for (redo `guarded_total` over `GoodT`) was abandoned in
+  favour of the lock-step simulation of Lemmas/TotalTabsSim.lean / TotalTabsSim2.lean, which reuses the
+  inline totality theorem as a black box.  Only `TrailOKw` is used by the final development (through
+  `TT.trailOKw_of`, Lemmas/TotalTabsRules.lean); `GoodT` and the `…T` contracts are kept as stated, unused.
 -/
 import MdIt.Lemmas.InlineTotalLoop
 import MdIt.Lemmas.C05TabsRanges3
